@@ -250,7 +250,7 @@ impl Mempool {
         self.add_transaction_if_validates(staking_tx, blockchain)
             .await;
 
-        let mut block = Block::create(
+        let block = Block::create(
             &mut self.transactions,
             previous_block_hash,
             blockchain,
@@ -261,9 +261,20 @@ impl Mempool {
             configs,
             storage,
         )
-        .await
-        .ok()?;
-        block.generate().ok()?;
+        .await;
+        let mut block = match block {
+            Ok(block) => block,
+            Err(_) => {
+                self.rebuild_utxo_map();
+                self.routing_work_in_mempool = 0;
+                return None;
+            }
+        };
+        if block.generate().is_err() {
+            self.rebuild_utxo_map();
+            self.routing_work_in_mempool = 0;
+            return None;
+        }
         debug!(
             "block generated with work : {:?} and burnfee : {:?} gts : {:?}",
             block.total_work,
